@@ -107,6 +107,19 @@ theorem equilibrium_accept_implies_dimension [CharZero α] (q : Quantity α) (np
   · exact hc.1
   · simp [hc] at h
 
+/-- **The equimolar boundary.** For `Σprod = Σreac` (e.g. `A + B = C + D`) the expected unit is the dimensionless quantity
+    `molar ** 0` (not the integer 1): an accepted unit-carrying constant is dimensionless — `3 mol/m³`, `3 /s`, `3 mM`, whose
+    simplified units have magnitude 1, are refused like `3 M` or `3 /min`. -/
+theorem equimolar_equilibrium_accepts_only_dimensionless [CharZero α] (q : Quantity α) (n : ℤ)
+    (h : equilibriumCheck (.qty q) n n = .ok ()) : q.unit.dims = Dims.zero ∧ q.unit.factor = 1 := by
+  rw [equilibriumCheck_qty] at h
+  have h0 : Dims.smul 0 concDims = Dims.zero := by decide
+  by_cases hc : q.unit.dims = Dims.smul (n - n) concDims ∧ q.unit.factor = 1000 ^ (n - n)
+  · refine ⟨?_, by simpa using hc.2⟩
+    rw [hc.1, sub_self, h0]
+  · rw [if_neg hc] at h
+    cases h
+
 /-- the converse fails on the pinned code: `3/mM` for `2 A = B` has the right dimension and is refused
     (stricter than the property requires; mirrored, not a violation of the statement) -/
 theorem equilibrium_refuses_scaled_unit_witness :
@@ -359,6 +372,11 @@ example : asReactions (.qty ⟨2000, ⟨1/1000, [3, 0, 0, 0, 0, 0, -1]⟩⟩ : P
 example : odeRhs exampleReg [.qty ⟨3, ⟨1/60, [0, 0, -1, 0, 0, 0, 0]⟩⟩] [⟨[(0, 1)], [(1, 1)]⟩]
     [.qty ⟨2, ⟨1, concDims⟩⟩, .qty ⟨5, ⟨1/1000, concDims⟩⟩, .qty ⟨1, ⟨1000, concDims⟩⟩] 3 = .error .valueError := by
   decide +kernel
+
+/-- `A + B = C + D` with `K = 3 mol/m³`, `3 /s`, `3 mM` (SI-coherent units): refused; `K = 3` dimensionless quantity: accepted -/
+example : equilibriumCheck (.qty ⟨3, ⟨1, [-3, 0, 0, 0, 0, 0, 1]⟩⟩ : PyVal Rat) 2 2 = .error .valueError := by decide +kernel
+example : equilibriumCheck (.qty ⟨3, ⟨1, [0, 0, -1, 0, 0, 0, 0]⟩⟩ : PyVal Rat) 2 2 = .error .valueError := by decide +kernel
+example : equilibriumCheck (.qty ⟨3, ⟨1, Dims.zero⟩⟩ : PyVal Rat) 2 2 = .ok () := by decide +kernel
 
 end ChemModel.C10
 
